@@ -7,6 +7,11 @@ ALL = [f"C{i:02d}" for i in range(1, 21)]
 HOOK_COMMITS = subprocess.run(["git", "-C", "/repo", "log", "--format=%h %s", "--grep", "^verif hook"], capture_output=True, text=True).stdout.strip().splitlines()
 
 CHECKS = {
+ "C07": dict(
+   category="exploration", design="DESIGN.md §4 C07",
+   technique="proptest-generated (stack shape, filter expressions, macro workload) cases in a fresh child process; per-leaf delivery, lookup_current and scope compared with a reference evaluator of the filters on the model's filtered view",
+   text="1-2 generated stacks (trees of <=6 recording leaves under plain/Filtered/Layered/Vec/Option/Box nodes; filters from level, targets, static env directives, filter_fn, a context-dependent dynamic_filter_fn, and/or/not; 0-2 top-level global filter layers inside or outside) are driven through the real macros (events, spans, enter/exit/record/close, enabled! probes, emissions aborted by a panicking field) on two threads, so interest caches, max-level hints and the per-thread filter bitmap are all in play. After every operation each leaf must have received exactly what the globals and the filters on its own path accept, and must see exactly its accepted spans in lookup_current()/scope().",
+   note="Global filter layers only at top level (documented exclusion). Spans stay on their thread with LIFO exit. Open finding F3 (enabled! / aborted emission leaves filter bits) is steered around and reported from two committed reproducers. Found and fixed F14/F15/F16 (fix: commits in /repo)."),
  "C05": dict(
    category="exploration", design="DESIGN.md §4 C05",
    technique="proptest-generated span-forest programs on stepped OS threads against two Registry+recording-layer stacks in a fresh child process; per-operation comparison with a reference-count model and outside lookups",
